@@ -251,6 +251,10 @@ def run(pm, ctx):
     for s in lp.body:
         if isinstance(s, ast.Assign) and isinstance(s.targets[0], ast.Name):
             pre[s.targets[0].id] = s.value
+        elif isinstance(s, ast.Assign) and isinstance(s.targets[0], ast.Tuple) and isinstance(s.value, ast.Tuple) and len(s.targets[0].elts) == len(s.value.elts):
+            for t_, v_ in zip(s.targets[0].elts, s.value.elts):
+                if isinstance(t_, ast.Name):
+                    pre[t_.id] = v_
     if len(tests) != 1 or not any("active_points" in norm_src(x) for x in tests[0].body) or norm_src(lp.iter) != "self.cut_points_list_":
         ctx.undecided_site("C15-d", site, "cannot isolate the activity test")
         return
